@@ -143,3 +143,14 @@ package replication
 //@   at drSwitchToSync 1 assert [to-sync] progress == 1 && m.drAutoSync.State == "sync_recover" && len(m.drRecoverKey) == 0 && m.drRecoverCount > 0 && chain(m, m.drRecoverKey, m.drRecoverCount)
 //@   ensures [not-dr-mode] old(m.config.ReplicationMode) != "dr-auto-sync" ==> m.drAutoSync == old(m.drAutoSync)
 //@   modifies *
+
+// UpdateConfig: a configuration change that needs a state switch (majority -> dr-auto-sync enters sync_recover, a new
+// label key enters async) is all-or-nothing: if the switch cannot be persisted, the manager keeps the OLD
+// configuration and the old served status, so it does not start serving dr-auto-sync with a state nobody saved.
+//@ func (*ModeManager).UpdateConfig
+//@   props C19
+//@   requires m.cluster != nil && m.storage != nil
+//@   ensures [failed-switch-changes-nothing] result != nil ==> m.config == old(m.config) && m.drAutoSync == old(m.drAutoSync) && m.drRecoverCount == old(m.drRecoverCount) && m.drRecoverKey == old(m.drRecoverKey)
+//@   ensures [accepted] result == nil ==> m.config == config
+//@   ensures [majority-to-dr-enters-sync-recover] result == nil && old(m.config.ReplicationMode) == "majority" && config.ReplicationMode == "dr-auto-sync" ==> m.drAutoSync.State == "sync_recover" && len(m.drRecoverKey) == 0 && m.drRecoverCount == 0
+//@   modifies m.config, m.drAutoSync, m.drRecoverKey, m.drRecoverCount, ghost kvhas, ghost kvval, ghost evres
